@@ -25,6 +25,7 @@ bytes; information field <= remote MIU; every UI payload <= link MIU and every I
 peer announced for that connection; PDUs delivered at the receiver == PDUs collected, in order.  Frames
 that contain a PDU sent through a raw access point socket are excepted as the property says.
 """
+import array
 import json
 import logging
 import sys
@@ -52,6 +53,48 @@ def hexs(b):
 
 def payload(n, fill):
     return bytes((fill + i) & 255 for i in range(n))
+
+
+# ------------------------------------------------------------------ message arguments of send()/sendto()
+class BytesSub(bytes):
+    pass
+
+
+ARG_KINDS = ['bytes', 'bytearray', 'bytes-sub', 'mv-bytes', 'mv-bytearray', 'mv-B', 'mv-H', 'mv-I', 'mv-2d', 'str', 'list',
+             'none', 'int', 'array-B', 'array-H']
+BYTES_KINDS = ('bytes', 'bytearray', 'bytes-sub')      # what the API documents: a bytes-like message
+
+
+def make_arg(kind, n, fill):
+    """message object with n ITEMS; returns (object, octets it stands for or None)"""
+    raw = payload(n, fill)
+    if kind == 'bytes':
+        return raw, raw
+    if kind == 'bytearray':
+        return bytearray(raw), raw
+    if kind == 'bytes-sub':
+        return BytesSub(raw), raw
+    if kind == 'mv-bytes':
+        return memoryview(raw), raw
+    if kind == 'mv-bytearray':
+        return memoryview(bytearray(raw)), raw
+    if kind == 'mv-B':
+        return memoryview(array.array('B', raw)), raw
+    if kind in ('mv-H', 'mv-I', 'array-H'):
+        a = array.array('H' if kind != 'mv-I' else 'I', [(fill + i) & 0xFFFF for i in range(n)])
+        return (a if kind == 'array-H' else memoryview(a)), a.tobytes()
+    if kind == 'array-B':
+        return array.array('B', raw), raw
+    if kind == 'mv-2d':
+        m = n - n % 2
+        return memoryview(payload(m, fill)).cast('B', (2, m // 2)) if m else memoryview(b''), payload(m, fill)
+    if kind == 'str':
+        return raw.decode('latin'), None
+    if kind == 'list':
+        return list(raw), None
+    if kind == 'int':
+        return n, None
+    return None, None
 
 
 # ------------------------------------------------------------------ alpha: real objects -> model grammar
@@ -288,6 +331,7 @@ class Sender(object):
         self.raw_used = False
         self.conn_learnt = []    # (how, MIUX value, socket send_miu, true limit)
         self.sendlog = []        # (model line, expected result)
+        self.arglog = []         # (argument kind, outcome, errno)
         self.threads = []
 
     def api(self, fn, *a):
@@ -329,6 +373,41 @@ class Sender(object):
         r, v = self.api(self.llc.sendto, s, msg, dest, DONTWAIT)
         exp = 'ok ' + a_sock(s) if r == 'ok' else 'err LlcpError:%d' % v
         self.sendlog.append(('sendto %d %d %s %s' % (self.miu, dest, hexs(msg), before), exp, n, r, self.true_miu))
+
+    def op_send_arg(self, key, kind, n, dest, fill):
+        """send()/sendto() with a message argument of the given Python type (n items).  The model knows octets only:
+        for bytes-like arguments the result is compared with it; for every other type the outcome is recorded and the
+        monitor applies - TypeError or llcp.Error are the documented refusals, anything accepted is measured in octets"""
+        s = self.socks.get(key)
+        if s is None:
+            return
+        msg, octets = make_arg(kind, n, fill)
+        before = a_sock(s)
+        raw = isinstance(s, T.RawAccessPoint)
+        dlc = isinstance(s, T.DataLinkConnection)
+        try:
+            if dlc:
+                self.llc.send(s, msg, DONTWAIT)
+            else:
+                self.llc.sendto(s, msg, dest, DONTWAIT)
+            r, v = 'ok', None
+        except nfc.llcp.Error as e:
+            r, v = 'err', e.errno
+        except TypeError:
+            r, v = 'type', None
+        self.arglog.append((kind, r, v))
+        if raw:
+            if r == 'ok':
+                self.raw_used = True
+            return
+        lim = min(self.true_miu, self.conn_miu.get((s.peer, s.addr), 0)) if dlc else self.true_miu
+        nbytes = len(octets) if octets is not None else None
+        if kind in BYTES_KINDS or (r == 'ok' and octets is not None):
+            exp = 'ok ' + a_sock(s) if r == 'ok' else ('err LlcpError:%d' % v if r == 'err' else 'TypeError')
+            line = ('send %s %s' % (hexs(octets), before)) if dlc else ('sendto %d %d %s %s' % (self.miu, dest, hexs(octets), before))
+            self.sendlog.append((line, exp, nbytes, r, lim))
+        elif r == 'ok':
+            self.sendlog.append((None, None, 10 ** 9, r, lim))       # accepted something that is not octets at all
 
     def op_rawsend(self, key, n, dest, fill):
         s = self.socks.get(key)
@@ -554,14 +633,19 @@ def run_scenario(ck, sc, lines, expect, maxframes=8):
 
     def flush_sends():
         for line, exp, n, r, lim in snd.sendlog:
-            lines.append(line)
-            expect.append((exp, 'send', sc, None))
-            ck.count('send-' + ('accepted' if r == 'ok' else 'errno-' + exp.split(':')[-1]))
-            # monitor: a payload above the link / connection MIU must not be queued
+            if line is not None:
+                lines.append(line)
+                expect.append((exp, 'send', sc, None))
+                ck.count('send-' + ('accepted' if r == 'ok' else 'errno-' + exp.split(':')[-1]))
+            # monitor: a payload above the link / connection MIU must not be queued (n = octets that would go out)
             if r == 'ok' and n > lim:
-                ck.violation('send-accepts-oversize', 'send()/sendto() queued a payload above the MIU of its receiver',
-                             {'scenario': sc, 'len': n, 'limit': lim})
+                ck.violation('send-accepts-oversize', 'send()/sendto() queued a message of %s octets, the MIU of its receiver is %d'
+                             % (n if n < 10 ** 9 else 'unknown many', lim), {'scenario': sc, 'len': n, 'limit': lim})
         del snd.sendlog[:]
+        for kind, r, v in snd.arglog:
+            ck.count('arg-%s:%s' % (kind, 'accepted' if r == 'ok' else 'TypeError' if r == 'type' else 'errno-%d' % v))
+            ck.case(('arg', kind, r, v, snd.true_miu), True)
+        del snd.arglog[:]
 
     def step():
         """one collect(); returns True if a frame came out"""
@@ -839,6 +923,10 @@ def gen_threaded(rng):
 
 
 CORPUS = [
+    # message arguments that are not octet strings: 100 16-bit items are 200 octets (MIU 128)
+    dict(family='corpus', miu=128, agf=False, script=[['ldl', 'a', None], ['send_arg', 'a', 'mv-H', 100, 16, 1]]),
+    dict(family='corpus', miu=128, agf=True, script=[['dlc', 'c', 40, 16, 128, 4, 1], ['send_arg', 'c', 'mv-I', 64, 16, 1],
+                                                     ['send_arg', 'c', 'bytes', 5, 16, 2]]),
     # CC / CONNECT that announce a receive window of 0 (RW TLV encoded) next to a UI PDU that just fits / just does not
     dict(family='corpus', miu=128, agf=True, script=[['listen', 'l', 'urn:nfc:sn:svc', 0, 128], ['accept', 'l', 'c', 32, 128, 1],
                                                      ['ldl', 'u', 33], ['sendto', 'u', 119, 17, 1]]),
@@ -1039,6 +1127,24 @@ def gen_conn_setup(rng):
                       rng.choice([0, 0, 1, 2, 15]), rng.choice([128, 248, 248, 1000]), rng.randrange(0, 5), rng.random() < 0.7)
 
 
+def gen_api_args(rng, miu=None, kind=None):
+    """every send path with every kind of message argument; item counts around MIU / itemsize and MIU"""
+    miu = miu or pick_miu(rng)
+    annc = rng.choice([128, miu, min(2175, miu + 9)])
+    cl = min(miu, annc)
+    script = [['ldl', 'a', None], ['dlc', 'c', 40, 16, annc, 15, 2], ['raw', 'r', 60]]
+    kinds = [kind] if kind else rng.sample(ARG_KINDS, 4)
+    for kd in kinds:
+        isz = {'mv-H': 2, 'mv-I': 4, 'array-H': 2}.get(kd, 1)
+        for key, lim in (('a', miu), ('c', cl)):
+            for n in sorted(set([lim // isz, lim // isz + 1, lim, lim + 1, rng.randrange(0, lim + 2), rng.choice([0, 1, 2])])):
+                script.append(['send_arg', key, kd, n, 17, rng.randrange(256)])
+                if rng.random() < 0.25:
+                    script.append(['collect'])
+        script.append(['send_arg', 'r', kd, rng.randrange(0, 20), 17, 1])
+    return dict(family='api-args', miu=miu, agf=rng.random() < 0.5, script=script)
+
+
 def interleave(rng, sc):
     """now and then call collect() in the middle of the script"""
     if rng.random() < 0.3 and len(sc['script']) > 2:
@@ -1068,12 +1174,16 @@ def scenarios(ck):
             yield sweep_sec(miu, 4, 'IU'[(miu + spare) % 2], spare, 10 + miu % 5)
     for _ in range(300 if quick else 6000):
         yield interleave(rng, gen_sec(rng))
+    # every kind of message argument on every send path, at a few MIUs
+    for kd in ARG_KINDS:
+        for miu in ((128, 131, 248) if quick else (128, 129, 130, 131, 248, 1000, 2175)):
+            yield gen_api_args(rng, miu, kd)
     # CC / CONNECT with a receive window of 0 / 1 / 2 / 15 and a non-default MIU next to a filler, for every MIU
     for miu in range(128, 256 if quick else 2176):
         yield conn_setup(rng, miu, ('cc', 'connect', 'cc-raw')[miu % 3], (0, 1, 2, 15, 0)[miu % 5], (248, 128)[miu % 2], miu % 4, miu % 7 != 0)
     n = 4000 if quick else 60000
     gens = [(gen_sdres, 5), (gen_sdreq, 4), (gen_ui_pair, 5), (gen_first_plus_ack, 6), (gen_budget_snl, 4), (gen_dlc, 8),
-            (gen_mix, 3), (gen_raw, 1), (gen_conn_setup, 4)]
+            (gen_mix, 3), (gen_raw, 1), (gen_conn_setup, 4), (gen_api_args, 3)]
     tot = sum(w for _, w in gens)
     for g, w in gens:
         for _ in range(n * w // tot):
